@@ -358,8 +358,7 @@ def shimmed_primitives(mp_mode=False):
 
 
 def make_owned_store(root, cfg, mp_mode=False):
-    with shimmed_primitives(mp_mode):
-        return common.make_store(root, cfg)
+    return common.make_store(root, cfg, mp_mode=mp_mode)
 
 
 # ---- choosers -----------------------------------------------------------------------------------
